@@ -89,6 +89,13 @@ def mapSet (m : List (Str × Str)) (k v : Str) : List (Str × Str) :=
   | [] => [(k, v)]
   | (k', v') :: rest => if k' = k then (k, v) :: rest else (k', v') :: mapSet rest k v
 
+/-- `m[k] = true` on a `map[string]bool` used as a set (only `true` is ever stored; `m[k]` reads as `contains`) -/
+def setAdd (s : List Str) (k : Str) : List Str := if s.contains k then s else s ++ [k]
+
+/-- what a function did to a `*http.ServeMux`: the patterns it registered, in order (`HandleFunc` itself is an
+    uninterpreted partial operation of `Ext`: net/http panics on an empty or already registered pattern) -/
+abbrev MuxLog := List Str
+
 /-- `for k, v := range m2 { m1[k] = v }`: the entries of `m2` written into `m1` (in the order in which `m2`
     was written; as a finite map the result does not depend on the order) -/
 def mapMerge (m1 m2 : List (Str × Str)) : List (Str × Str) := m2.foldl (fun acc kv => mapSet acc kv.1 kv.2) m1
